@@ -188,17 +188,28 @@ def finish(mod, modname, pid, tier, seed, repo, t0, results, skipped, heavy, n_j
         # converts a value to a C int / float) is executed on its concrete test vectors in the unpatched package; a claim that
         # fails there is a violation demonstrated on the real code (found without the solver - flagged as such)
         fallback_hits = []
-        for r in herr[:12]:
+        # ... and so is a task on which the solver stayed inconclusive (unknown obligations, paths cut by a budget): its verdict is
+        # "not decided", and the test vectors are at least tried concretely (bug hunting, flagged as such)
+        undecided = [r for r in results if (r.get("unknown", 0) > 0 or (r.get("stats") or {}).get("paths_cut", 0) > 0)
+                     and not r.get("violations")] if getattr(mod, "FALLBACK_ON_UNDECIDED", False) else []
+        undecided.sort(key=lambda r: -(r.get("unknown", 0) + (r.get("stats") or {}).get("paths_cut", 0)))
+        nvec = getattr(mod, "FALLBACK_VECTORS", 3)
+        for r in herr[:12] + undecided[:getattr(mod, "FALLBACK_TASKS", 6)]:
+            if "harness_error" not in r:
+                r = dict(r, harness_error="solver inconclusive on this task (unknown obligations / paths cut by budget)")
             try:
                 vecs = list(mod.test_vectors(r["params"])) if hasattr(mod, "test_vectors") else []
             except Exception:  # noqa: BLE001
                 vecs = []
-            for vec in vecs[:3]:
+            for vec in vecs[:nvec]:
                 vals = common._ser_model(vec)
-                ans = srv.ask({"module": modname, "params": r["params"], "values": vals}) if srv else None
+                fjob = {"module": modname, "params": r["params"], "values": vals, "limit_s": 120, "lenient": True}
+                ans = srv.ask(fjob) if srv else None
                 if ans is None:
                     srv = common.ConcreteServer(heavy=heavy, repo=repo)
-                    ans = srv.ask({"module": modname, "params": r["params"], "values": vals})
+                    ans = srv.ask(fjob)
+                if ans.get("exception") in ("HarnessError", "TimeoutError", "MemoryError"):
+                    continue          # the concrete run itself did not finish: nothing learnt
                 bad = [c for c in (ans.get("failed") or []) if not c.startswith("canary")] or (["no-exception"] if ans.get("exception") else [])
                 if ans.get("assumptions_ok", True) and bad:
                     fallback_hits.append((r, vals, bad[0]))
@@ -209,12 +220,12 @@ def finish(mod, modname, pid, tier, seed, repo, t0, results, skipped, heavy, n_j
             if sig in fb_done:
                 continue
             fb_done.add(sig)
-            path = common.write_replay(pid, modname, r["params"], vals, claim, heavy)
+            path = common.write_replay(pid, modname, r["params"], vals, claim, heavy, lenient=True)
             rc, outp = common.run_replay(path, repo)
             if rc == 1:
                 violations.append((r, {"name": claim, "status": "violated", "path": 0, "info": {"sig": sig, "fallback": True}, "model": vals,
                                        "slack_model": False}))
-                log(f"[{pid}] symbolic run of task {r.get('key')} stopped at an encoding boundary ({r['harness_error'][:80]}); "
+                log(f"[{pid}] symbolic run of task {r.get('key')} did not decide it ({r['harness_error'][:80]}); "
                     f"its concrete test vector violates claim {claim}")
         # ---------------- canaries: the harness must be able to see a false claim
         can_viol = [(r, c) for r, c in canaries if c["status"] == "violated"]
@@ -238,7 +249,8 @@ def finish(mod, modname, pid, tier, seed, repo, t0, results, skipped, heavy, n_j
             for r, v in lst[:4]:
                 if v["model"] is None:
                     continue
-                path = common.write_replay(pid, modname, r["params"], v["model"], v["name"], heavy, expect=(v.get("info") or {}).get("type"))
+                path = common.write_replay(pid, modname, r["params"], v["model"], v["name"], heavy, expect=(v.get("info") or {}).get("type"),
+                                           lenient=bool((v.get("info") or {}).get("fallback")))
                 rc, outp = common.run_replay(path, repo)
                 if rc == 1:
                     if sig in known_sigs:
